@@ -919,7 +919,22 @@ class Executor:
         # declares what the callee may modify, only that)
         snapshot = dict(st.store)
         limited = [v for r, v in self.modifies.items() if re.search(r, short)]
-        for d in desc:
+        # an argument of type `&T` (shared) is read-only for the callee: modelled state has no
+        # interior mutability, so nothing behind it is havocked
+        shared = []
+        for a in argtexts:
+            ty = None
+            m = re.match(r"^(?:copy|move) (.*)$", a.strip())
+            if m:
+                try:
+                    ty = self.type_of_place(fn, self.parse_place(st, fn, m.group(1), frame), frame)
+                except Untranslatable:
+                    ty = None
+            ty = (ty or "").strip()
+            shared.append(ty.startswith("&") and not ty.startswith("&mut") and not ty.startswith("&'") or bool(re.match(r"^&'\w+ (?!mut )", ty)))
+        for d, sh in zip(desc, shared):
+            if sh and not limited:
+                continue
             if d[0] == "ref":
                 prefixes = limited[0] if limited else [d[1]]
                 for pre in prefixes:
